@@ -108,14 +108,23 @@ def _eq(a, b):
     return bool(np.all((a == b) | (np.isnan(a) & np.isnan(b))))
 
 
+def _pristine_registry():
+    """Put nessai's global registry into its import-time state without
+    relying on the reset function under test."""
+    from nessai import config
+
+    fresh = type(config.livepoints)()
+    vars(config.livepoints).clear()
+    vars(config.livepoints).update(vars(fresh))
+
+
 class Interp:
     """Executes steps against nessai and the model registry."""
 
     def __init__(self):
         from nessai import config
-        from nessai.livepoint import reset_extra_live_points_parameters
 
-        reset_extra_live_points_parameters()
+        _pristine_registry()
         config.general.eps = 1e-8
         self.extras = []  # (name, default)
         self.snapshots = []  # (array, bytes, dtype)
@@ -124,9 +133,7 @@ class Interp:
         self.case = {"steps": self.steps}
 
     def close(self):
-        from nessai.livepoint import reset_extra_live_points_parameters
-
-        reset_extra_live_points_parameters()
+        _pristine_registry()
 
     # -- model registry
     @property
@@ -840,9 +847,7 @@ def shard(seed, n_runs, steps, fixed=False, anticipated=False):
     finally:
         _STATS = None
         _POLICY = None
-        from nessai.livepoint import reset_extra_live_points_parameters
-
-        reset_extra_live_points_parameters()
+        _pristine_registry()
     return out
 
 
